@@ -1,8 +1,8 @@
 #!/usr/bin/env python3
-"""Self-test of the round-7 translators (`containers` -> C12Gen, `reasoningN` -> C02Gen, `wiring` -> C13Gen, `ringslots` -> C05Gen, `executor` -> C06Gen) on edited *copies* of the
+"""Self-test of the round-7 translators (`containers` -> C12Gen, `reasoningN` -> C02Gen, `wiring` -> C13Gen, `ringslots` -> C05Gen, `executor` -> C06Gen, `spinwait` -> C13WaitGen) on edited *copies* of the
 sources — never touches /repo or /verif/lean:
 
-    python3 tools/test_rs2lean_round7.py [--repo /repo] [--only containers|reasoningN|wiring|ringslots|executor]
+    python3 tools/test_rs2lean_round7.py [--repo /repo] [--only containers|reasoningN|wiring|ringslots|executor|spinwait]
 
 A scratch copy of the source tree (git worktree-free: the files are copied) and of the Lean project (with its build output, so that
 only the touched modules are rebuilt) is made under a temporary directory; for every edit the translator is run on the copy and the
@@ -24,6 +24,8 @@ GR = 'deep_causality/src/protocols/causable_graph/graph_reasoning.rs'
 BU = 'dcl_data_structures/src/ring_buffer/dsl/rust_disruptor_builder.rs'
 RBF = 'dcl_data_structures/src/ring_buffer/ringbuffer/const_array_ring_buffer.rs'
 EXE = 'dcl_data_structures/src/ring_buffer/executor/thread_pool_executor.rs'
+SPW = 'dcl_data_structures/src/ring_buffer/wait_strategy/spinlock_wait_strategy.rs'
+CSQ = 'dcl_data_structures/src/ring_buffer/utils/cursor_sequence.rs'
 PUSH_LOOP = "        let mut all: Vec<&T> = Vec::new();\n        for item in self {\n            all.push(&item)\n        }\n        all\n"
 DEQ_TOVEC = ("        let mut v = Vec::with_capacity(self.len());\n        let mut deque = self.clone(); // clone to avoid mutating the original\n\n"
              "        for item in deque.make_contiguous().iter() {\n            v.push(item.clone());\n        }\n\n        v\n")
@@ -114,6 +116,21 @@ EDITS = {
          "        for t in threads.into_iter().rev().skip(1) {"),
         ('BREAK', 'handle keeps no threads (refused)', EXE, "        ThreadedExecutorHandle { threads }",
          "        ThreadedExecutorHandle { threads: Vec::new() }"),
+    ]),
+    'spinwait': ('DcVerif.Props.C13WaitGen', [
+        ('QUIET', 'branches the other way round', SPW,
+         "            if available >= sequence {\n                return Some(available);\n            }\n            if check_alert() {\n                return None;\n            }",
+         "            if available < sequence {\n                if check_alert() {\n                    return None;\n                }\n            } else {\n                return Some(available);\n            }"),
+        ('QUIET', 'unwrap_or(0)', CSQ, ".unwrap_or_default()", ".unwrap_or(0)"),
+        ('BREAK', 'strictly greater', SPW, "if available >= sequence {", "if available > sequence {"),
+        ('BREAK', 'alert wins over availability', SPW,
+         "            if available >= sequence {\n                return Some(available);\n            }\n            if check_alert() {\n                return None;\n            }",
+         "            if check_alert() {\n                return None;\n            }\n            if available >= sequence {\n                return Some(available);\n            }"),
+        ('BREAK', 'minimum taken once, outside the loop (refused)', SPW,
+         "        loop {\n            let available = get_min_cursor_sequence(dependencies);",
+         "        let available = get_min_cursor_sequence(dependencies);\n        loop {"),
+        ('BREAK', 'maximum instead of minimum (refused)', CSQ, ".min()", ".max()"),
+        ('BREAK', 'first cursor skipped (refused)', CSQ, "        .iter()\n", "        .iter()\n        .skip(1)\n"),
     ]),
 }
 
